@@ -602,7 +602,7 @@ func (r *runner) label(l string) {
 }
 
 func (r *runner) known(sig string) bool {
-	if !vt.IsKnown(sig) {
+	if !isKnown(sig) {
 		return false
 	}
 	for _, k := range r.o.Known {
